@@ -138,5 +138,5 @@ def jobs(tier, seed):
         cfg = [(2, 1, 'cubic5'), (3, 1, 'hex558'), (3, 2, 'tric'), (4, 1, 'cubic5_rotz'), (3, 1, 'mono567b110')]
     else:
         cfg = [(T, A, lat) for (T, A) in ((2, 1), (3, 1), (3, 2), (4, 1)) for lat in pool.ALL_LATTICES] + \
-              [(5, 2, 'tric'), (6, 1, 'hex558'), (5, 1, 'rhomb60')]
+              [(5, 2, 'tric'), (6, 1, 'hex558'), (5, 1, 'rhomb60'), (3, 2, 'rand_a'), (4, 1, 'rand_b')]
     return [dict(name=f'msd_T{T}_A{A}_{lat}', fn='msd_job', params=dict(T=T, A=A, lattice=lat, dims=[1, 2, 3])) for T, A, lat in cfg]
